@@ -84,6 +84,20 @@ Theorem C07_cache_is_a_map : forall h, cache_ok (fst (run h)).
 Proof. exact cache_ok_run. Qed.
 Print Assumptions C07_cache_is_a_map.
 
+(* No orphan mappings: in every reachable state each command mapping leads to a
+   stored session (Invalidate, InvalidateExpired and -- since fix c4d0e8b --
+   LookupNonExpired all remove a session's mappings with it).  Hence the freshness
+   side condition of C07_refines ("no server announces an id the cache still refers
+   to") only ever speaks about sessions that are still stored. *)
+Theorem C07_no_orphans : forall h kv,
+  In kv (c_cmdmap (fst (run h))) -> find_sess (snd kv) (c_sessions (fst (run h))) <> None.
+Proof. exact no_orphans_run. Qed.
+Print Assumptions C07_no_orphans.
+Theorem C07_used_means_stored : forall h id,
+  In id (used (fst (run h))) -> find_sess id (c_sessions (fst (run h))) <> None.
+Proof. intros h id. apply used_stored. apply no_orphans_run. Qed.
+Print Assumptions C07_used_means_stored.
+
 (* ConnectAndAuthenticateWithConfig: after such a failure the retry is a full handshake *)
 Theorem C07_retry_is_full : forall c now t a cm p1 p2 e,
   cache_ok c -> a <> [] ->
